@@ -130,6 +130,12 @@ def lift(repo_root, spec):
     with open(path, encoding='utf-8') as f:
         text = f.read()
     start, end, body = find_block(text, spec['anchor'], spec.get('occurrence', 0))
+    if spec.get('mode') == 'stmt':
+        # whole statement: from the start of the anchor match to the closing brace
+        m = list(re.finditer(spec['anchor'], text, re.S))[spec.get('occurrence', 0)]
+        start = m.start()
+        body = text[start:end + 1]
+        end = end + 1
     for pat in spec.get('expect', []):
         if not re.search(pat, body, re.S):
             raise LiftError("lifted block of %s lacks expected text %r" % (spec['file'], pat))
